@@ -148,6 +148,22 @@ class C08(Prop):
     assumptions = ["history() rows of features dropped by a carver are reported separately (known finding "
                    "candidate), see finding_signatures"]
 
+    def corpus(self):
+        """discrete features whose rare values are almost as frequent as a quantile (O1 shapes)"""
+        cs = []
+        for counts, mf in (([7, 3, 3, 4, 6, 6, 7, 7], 1 / 7), ([165, 9, 9, 9, 4, 4], 0.05), ([19, 90] + [1] * 91, 0.1)):
+            col = []
+            for v, c in enumerate(counts):
+                col += [float(v)] * c
+            y = [(i * 7) % 3 % 2 for i in range(len(col))]
+            y[0], y[1] = 0, 1
+            for klass in ("QuantitativeDiscretizer", "Discretizer", "BinaryCarver"):
+                cs.append({"klass": klass, "y": y, "features": {"q1": {"kind": "quant", "col": encs(col), "order": None,
+                                                                       "shape": "o1_like"}},
+                           "min_freq": mf, "max_n_mod": 4, "dropna": True, "output_dtype": "float",
+                           "sort_by": "cramerv", "min_freq_mod": None})
+        return cs
+
     def generate(self, rng, tier):
         return [gen_case(rng) for _ in range(320 if tier == "quick" else 6000)]
 
